@@ -101,6 +101,22 @@ def stepWith (oracle : Case → Summary → Bool) (d : DSt) (fields : List Strin
     match parseSummary impl with
     | some i => (d, ⟨showSummary m, agrees d.client m i, oracle c m, oracle c i, "-"⟩)
     | none => (d, ⟨showSummary m, false, oracle c m, false, "-"⟩)
+  | ["resume", "refused"] =>
+    -- the server refuses the resumption, a fresh session is bound and stream management enabled again: the request
+    -- still carries the old id and count, the NEW session starts counting at zero under the new id
+    let c : Case := ⟨d.client, d.smId, d.n0, d.ins.reverse⟩
+    let m := modelResume c
+    let showR : Option (String × Nat) → String
+      | none => "none"
+      | some (i, h) => encStr i ++ ":" ++ toString h ++ ":" ++ encStr "sm-new" ++ ":0"
+    let i : Option (Option (String × Nat) × Bool) :=
+      if impl == "none" then some (none, true) else
+      match impl.splitOn ":" with
+      | [a, b, nid, ninb] => (do pure (some (← decStr a, ← b.toNat?), (decStr nid) == some "sm-new" && ninb == "0"))
+      | _ => none
+    match i with
+    | some (r, fresh) => (d, ⟨showR m, decide (m = r) && fresh, holdsResume c m, holdsResume c r && fresh, "-"⟩)
+    | none => (d, ⟨showR m, false, holdsResume c m, false, "-"⟩)
   | ["resume"] =>
     let c : Case := ⟨d.client, d.smId, d.n0, d.ins.reverse⟩
     let m := modelResume c
